@@ -250,6 +250,49 @@ def rebuilds(chk, fx, rule, files):
     return n
 
 
+def swapped_args(chk, fx, rule, files):
+    """call sites whose arguments are locals named after the callee's parameters pass them in the callee's order"""
+    chk.rule(rule, "ARG-NAMES: at a call of a dicom-rs function, two arguments that are plain locals carrying the names of two of the callee's parameters "
+                   "are not passed in each other's slots (same-typed arguments swapped compile silently)")
+    files = set(files)
+    wanted = {"dicom_" + f.split("/")[0].replace("-", "_") for f in files}
+    n = 0
+    for key in sorted(fx.files):
+        if key[0] not in wanted:
+            continue
+        d = fx.crate(*key)
+        for h in d["hir"]:
+            if h["loc"]["f"] not in files or h["loc"].get("m") or not H.is_node(h.get("body")):
+                continue
+            ordn = {}
+            for x in H.walk(h["body"]):
+                if H.kind(x) not in ("call", "mcall"):
+                    continue
+                cal = H.callee(x)
+                if not cal or not re.match(r"<?&?(mut )?dicom", cal) or not fx.has_hir(cal):
+                    continue
+                cp = param_names(fx.hirfn(cal))
+                args = H.call_args(x)
+                if len(cp) != len(args):
+                    continue
+                names = []
+                for a in args:
+                    c = faithful_core(a)
+                    names.append(c[2] if H.kind(c) == "path" and isinstance(c[2], str) and "::" not in c[2] else None)
+                named = [i for i, nm in enumerate(names) if nm and nm != "self" and nm in cp]
+                if len(named) < 2:
+                    continue
+                short = cal.split("::")[-1]
+                ordn[short] = ordn.get(short, 0) + 1
+                crossed = [(names[i], names[j]) for i in named for j in named if i < j and names[i] == cp[j] and names[j] == cp[i] and names[i] != names[j]]
+                n += 1
+                chk.expect(not crossed, rule, h["path"], f"call of {short}#{ordn[short]}", "arguments named after parameters sit in those parameters' slots",
+                           {"arguments": names, "parameters": cp, "crossed": crossed}, loc=f"{h['loc']['f']}:{x[1]}")
+    return n
+
+
+ARGS_COUNTED = {"C01": 98, "C02": 92, "C03": 12, "C04": 15, "C05": 176, "C06": 83, "C07": 15, "C08": 12, "C09": 71, "C10": 79, "C11": 3, "C13": 70, "C16": 2, "C23": 1,
+                "C25": 7, "C26": 5, "C27": 5, "C28": 4, "C29": 7, "C30": 11, "C31": 70, "C32": 5, "C33": 12, "C34": 88}
 REBUILDS_COUNTED = {"C05": 28, "C06": 26, "C09": 14, "C16": 5}
 SETTERS_COUNTED = {"C01": 4, "C02": 4, "C04": 1, "C05": 20, "C06": 9, "C07": 3, "C08": 3, "C09": 15, "C28": 4, "C29": 13, "C30": 13, "C34": 1}
 
@@ -262,10 +305,15 @@ def check_property(chk, pid):
             p = json.loads(line)
             if p["id"] == pid:
                 files = p["anchors"]["files"]
-    if not files or pid not in COUNTED:
+    if not files:
         return 0
     fx = facts.load("W")
-    n = check(chk, fx, "forwarders", files, floor=(COUNTED[pid] * 9) // 10)
+    n = 0
+    if COUNTED.get(pid):
+        n = check(chk, fx, "forwarders", files, floor=(COUNTED[pid] * 9) // 10)
+    if ARGS_COUNTED.get(pid):
+        m = swapped_args(chk, fx, "argument-names", files)
+        chk.floor("argument-names", "call sites with two arguments named after parameters", m, (ARGS_COUNTED[pid] * 9) // 10)
     if SETTERS_COUNTED.get(pid):
         m = setters(chk, fx, "option-setters", files)
         chk.floor("option-setters", "setters named after a field", m, (SETTERS_COUNTED[pid] * 9) // 10)
